@@ -267,6 +267,30 @@ pub fn run(tier: Tier, seed: u64) -> i32 {
             total.violation("line", 1 << 60, format!("a text with 70000 blank/comment lines after the header: rows report lines {lines:?}, expected {want:?}"), || dyn_replay(&text, &sigs, true, &script, &opts, want.iter().map(|l| format!("row from line {l}")).collect(), &obs, "line"));
         }
     }
+    // loop bodies longer than the enumerated programs hold: computed rows and plain rows mixed, three
+    // iterations, a nested repeat, a while - the same lines in every iteration
+    {
+        let sigs = sigs(0);
+        let cases: Vec<(&str, Vec<usize>)> = vec![
+            ("A Q\nloop(i,3)\n(i) X\n1 1\n1 0\n(i+1) X\n0 0\nend loop\n1 1\n", [3usize, 4, 5, 6, 7].iter().cycle().take(15).copied().chain([9]).collect()),
+            ("A Q\n1 1\nloop(i,2)\n0 0\n0 1\n\n(i) 1\n1 1\nrepeat(2) 1 0\n(i) X\nend loop\n", [2usize].into_iter().chain([4usize, 5, 7, 8, 9, 9, 10].iter().cycle().take(14).copied()).collect()),
+            ("A Q\nlet k = 0;\nwhile(k < 3)\n(k) X\n1 1\n1 1\nlet k = k + 1;\n0 0\nend while\n", [4usize, 5, 6, 8].iter().cycle().take(12).copied().collect()),
+            ("A Q\nloop(j,2)\nloop(i,2)\n1 1\n(i) X\n1 1\n1 1\nend loop\n0 0\nend loop\n", [4usize, 5, 6, 7, 4, 5, 6, 7, 9].iter().cycle().take(18).copied().collect()),
+        ];
+        for (ci, (text, want)) in cases.iter().enumerate() {
+            let script = vec![Step::Ans(vec![("Q".into(), V::Num(3)), ("i".into(), V::Num(202))])];
+            let mut opts = RunOpts::new(40);
+            opts.repeat_last = true;
+            let obs = run_dynamic(text, &sigs, true, &script, &opts);
+            let lines: Vec<usize> = obs.items.iter().filter_map(|i| if let ObsItem::Row(r) = i { Some(r.line) } else { None }).collect();
+            total.evals += 1;
+            total.nontrivial += 1;
+            total.witness("loop_body_of_five_rows");
+            if &lines != want {
+                total.violation("line", (1 << 59) + ci as u64, format!("text:\n{text}rows report lines {lines:?}, expected {want:?}"), || dyn_replay(text, &sigs, true, &script, &opts, want.iter().map(|l| format!("row from line {l}")).collect(), &obs, "line"));
+            }
+        }
+    }
     let meta = CheckMeta {
         id: "C19",
         tier,
